@@ -278,6 +278,7 @@ static volatile sig_atomic_t in_calls;
 static void on_signal(int sig)
 {
   if (in_calls) siglongjmp(recover, sig);
+  if (sig == SIGALRM) return;            // a late alarm, the calls have returned
   signal(sig, SIG_DFL); raise(sig);      // not ours: die, the parent records it
 }
 
@@ -291,25 +292,26 @@ static void worker(const char* path, long from)
   for (long i = from; i < n; ++i)
     {
       if (recoveries >= 500) { pg->next = i; fclose(out); _exit(4); }      // a fresh worker takes over at case i
-      pg->next = i; alarm(10);
+      pg->next = i;
       int sig = sigsetjmp(recover, 1);
       if (sig == 0)
 	{
-	  in_calls = 1;
+	  vector<string> t; if (!configs_mode) t = text_of(i);
+	  alarm(20); in_calls = 1;
 	  if (configs_mode) { pg->phase = 2; ev_printparse(lines[i]); }
-	  else { vector<string> t = text_of(i); pg->phase = 0; ev_parse(t); pg->phase = 1; ev_roundtrip(t); }
-	  in_calls = 0;
+	  else { pg->phase = 0; ev_parse(t); pg->phase = 1; ev_roundtrip(t); }
+	  in_calls = 0; alarm(0);
 	}
       else
 	{
 	  // the calls of event pg->phase of case i did not return: complete the line, skip the rest of the case
-	  in_calls = 0; ++recoveries;
+	  in_calls = 0; alarm(0); ++recoveries;
 	  if (sig == SIGALRM) fprintf(out, "%s,\"ret\":\"timeout\"}\n", rest_of(pg->phase));
 	  else fprintf(out, "%s,\"ret\":\"sig%d\"}\n", rest_of(pg->phase), sig);
 	  fflush(out);
 	}
     }
-  pg->next = n; alarm(0);
+  pg->next = n;
   fclose(out);
   _exit(0);
 }
@@ -347,7 +349,7 @@ int main(int argc, char** argv)
   fclose(fopen(path, "w"));
   struct rlimit nocore = {0, 0}; setrlimit(RLIMIT_CORE, &nocore);
   pg = (progress*) mmap(0, sizeof(progress), PROT_READ | PROT_WRITE, MAP_SHARED | MAP_ANONYMOUS, -1, 0);
-  long total = ncases(), from = 0;
+  long total = ncases(), from = 0; bool died_between_events = false;
   while (from < total)
     {
       pg->next = from; pg->phase = configs_mode ? 2 : 0;
@@ -359,11 +361,23 @@ int main(int argc, char** argv)
       if (WIFEXITED(st) && WEXITSTATUS(st) == 0 && pg->next >= total) break;
       if (WIFEXITED(st) && WEXITSTATUS(st) == 2) return 2;
       if (WIFEXITED(st) && WEXITSTATUS(st) == 4) { from = pg->next; continue; }
-      // the worker died inside case pg->next, event pg->phase: complete the truncated line
+      // the worker died.  Inside the calls of case pg->next, event pg->phase, if the file ends with a truncated line:
+      // complete it and go on after the culprit.  Otherwise it died between two events: run that case again (once).
+      FILE* f = fopen(path, "r+");
+      bool truncated = false;
+      if (fseek(f, -1, SEEK_END) == 0) truncated = fgetc(f) != '\n';
+      if (!truncated)
+	{
+	  fclose(f);
+	  if (pg->next == from && died_between_events) { fprintf(stderr, "ini: the worker dies outside the recorded calls at case %ld\n", from); return 3; }
+	  died_between_events = true; from = pg->next;
+	  continue;
+	}
+      died_between_events = false;
       char ret[32];
       if (WIFSIGNALED(st)) { if (WTERMSIG(st) == SIGALRM) snprintf(ret, sizeof ret, "timeout"); else snprintf(ret, sizeof ret, "sig%d", WTERMSIG(st)); }
       else snprintf(ret, sizeof ret, "exit%d", WEXITSTATUS(st));
-      FILE* f = fopen(path, "a");
+      fseek(f, 0, SEEK_END);
       fprintf(f, "%s,\"ret\":\"%s\"}\n", rest_of(pg->phase), ret);
       fclose(f);
       from = pg->next + 1;
